@@ -776,3 +776,67 @@ def stats(plan, jr):
     if not fault_seen:
         s["fault_free"] = 1
     return s
+
+
+def _round_sig(x, n=3):
+    if x == 0 or not math.isfinite(x):
+        return x
+    return float("%.*g" % (n, x))
+
+
+def shrink_candidates(plan):
+    """Simpler variants of a failing plan: drop delivery / dup / twin flags, identity rotations, rounder translations,
+    sizes and directions (rotations are never rounded: poses must stay orthonormal)."""
+    import copy
+    ops = plan["ops"]
+    for k, op in enumerate(ops):
+        for key in ("dup", "how", "share", "stack"):
+            if key in op and not (key == "stack" and any((o.get("how") or "").startswith("pstack") for o in ops)):
+                p = copy.deepcopy(plan)
+                del p["ops"][k][key]
+                yield p
+        if op["op"] in ("new", "pose") and op.get("pose") is not None and not op.get("share"):
+            T = np.array(op["pose"], dtype=float)
+            if not np.array_equal(T[:3, :3], np.eye(3)) and op.get("spec", {}).get("kind") != "hull":
+                p = copy.deepcopy(plan)
+                T2 = T.copy()
+                T2[:3, :3] = np.eye(3)
+                p["ops"][k]["pose"] = T2.tolist()
+                yield p
+            t = [_round_sig(v, 2) for v in T[:3, 3]]
+            if t != T[:3, 3].tolist():
+                p = copy.deepcopy(plan)
+                T2 = T.copy()
+                T2[:3, 3] = t
+                p["ops"][k]["pose"] = T2.tolist()
+                yield p
+        if op["op"] == "new":
+            spec = op["spec"]
+            for key in ("radius", "height", "length"):
+                if key in spec and _round_sig(spec[key], 2) != spec[key] and _round_sig(spec[key], 2) > 0:
+                    p = copy.deepcopy(plan)
+                    p["ops"][k]["spec"][key] = _round_sig(spec[key], 2)
+                    yield p
+            for key in ("radii", "size"):
+                if key in spec:
+                    r = [_round_sig(v, 2) for v in spec[key]]
+                    if r != spec[key] and all(v > 0 for v in r):
+                        p = copy.deepcopy(plan)
+                        p["ops"][k]["spec"][key] = r
+                        yield p
+            if "margin" in spec:
+                p = copy.deepcopy(plan)
+                del p["ops"][k]["spec"]["margin"]
+                yield p
+        if op["op"] == "sup":
+            d = op["d"]
+            r = [_round_sig(v, 2) for v in d]
+            if r != d and any(r):
+                p = copy.deepcopy(plan)
+                p["ops"][k]["d"] = r
+                yield p
+        if op["op"] == "warm" and len(op["dirs"]) > 1:
+            for i in range(len(op["dirs"])):
+                p = copy.deepcopy(plan)
+                del p["ops"][k]["dirs"][i]
+                yield p
